@@ -28,6 +28,8 @@ namespace sim
     void start(uint64_t, bool, size_t) {}
     void *pool_alloc(size_t n) { return ::operator new(n); }
     void pool_free(void *p) { ::operator delete(p); }
+    void set_poison(int) {}
+    void configure(size_t, size_t) {}
     void stop() {}
     bool active() { return false; }
     void suspend() {}
@@ -43,11 +45,11 @@ void (*sim_layout_free_hook)(void *, size_t) = nullptr;
 namespace
 {
   constexpr uintptr_t ARENA_BASE = 0x100000000000ULL;
-  constexpr size_t ARENA_SIZE = 6ULL << 30; // virtual, MAP_NORESERVE
   constexpr uintptr_t META_BASE = 0x0f0000000000ULL;
   constexpr size_t N_CLASSES = 64 + 17;              // 16..1024 step 16, then 2K..64M powers of two
-  constexpr size_t FREE_CAP = 1ULL << 22;             // entries per class
-  constexpr size_t META_SIZE = N_CLASSES * FREE_CAP * sizeof(void *);
+  size_t FREE_CAP = 1ULL << 22;                       // entries per class (configure() before the first start)
+  size_t ARENA_SIZE = 6ULL << 30;                     // virtual, MAP_NORESERVE
+#define META_SIZE (N_CLASSES * FREE_CAP * sizeof(void *))
   constexpr uint32_t MAGIC = 0x51a70ca7;
 
   struct header
@@ -64,8 +66,9 @@ namespace
   size_t g_nfree[N_CLASSES];
   void **g_free_tab[N_CLASSES];
   sim::Rng g_rng(1);
-  size_t g_limit = ARENA_SIZE;
+  size_t g_limit = 6ULL << 30;
   uint64_t g_allocs = 0;
+  int g_poison = -1;
   thread_local bool tl_active = false;
   thread_local int tl_suspend = 0;
 
@@ -139,6 +142,8 @@ namespace
       h->magic = MAGIC;
       h->cls = 0xffffffffu;
       h->size = n;
+      if (g_poison >= 0)
+        memset(h + 1, g_poison, tot - sizeof(header));
       return h + 1;
     }
     if (g_nfree[c] == 0)
@@ -161,6 +166,8 @@ namespace
     h->magic = MAGIC;
     h->cls = static_cast<uint32_t>(c);
     h->size = n;
+    if (g_poison >= 0)
+      memset(h + 1, g_poison, size_of_class(c));
     return h + 1;
   }
 
@@ -230,6 +237,14 @@ namespace sim
       if (sim_layout_free_hook)
         sim_layout_free_hook(p, (static_cast<header *>(p) - 1)->size);
       arena_free(p);
+    }
+    void set_poison(int byte) { g_poison = byte; }
+    void configure(size_t arena_bytes, size_t free_entries_per_class)
+    {
+      if (g_mapped)
+        die("configure() after the arena was mapped");
+      ARENA_SIZE = arena_bytes;
+      FREE_CAP = free_entries_per_class;
     }
     void stop() { tl_active = false; }
     bool active() { return tl_active && tl_suspend == 0; }
